@@ -4,7 +4,8 @@ import numpy as np
 from harness import heap_corr as hc, circgen as cg, simops_corr as sc, map_oracle as mo
 
 THEOREMS = ['C08_init', 'C08_history_inv', 'C08_alloc_inv', 'C08_free_inv', 'C08_alloc_fresh', 'C08_free_live',
-            'C08_live_disjoint', 'C08_high_water', 'C08_free_commute', 'C08_map_check_sound']
+            'C08_live_disjoint', 'C08_high_water', 'C08_free_commute', 'C08_map_check_sound', 'C08_build_passes_certificate',
+            'C08_certificate_needs_reads_defined']
 
 
 def gen_map_case(rng):
